@@ -14,3 +14,4 @@ import RepidProofs.Props.C09
 import RepidProofs.Props.C10
 import RepidProofs.Props.C03
 import RepidProofs.Props.C07
+import RepidProofs.Props.C08
